@@ -18,6 +18,13 @@ def main():
                 with common.BuildLock():
                     changed = common.write_generated(gen)
                 print('regen %s: %s' % (prop.PID, changed or 'unchanged'))
+    # source-translator tie (SrcTie): Generated/Src_<module>.lean from the current source
+    common.srctie_specs('')      # puts harness/ on sys.path
+    import srctie_specs
+    for pid in sorted(srctie_specs.SPECS):
+        notes = []
+        ok, infos = common.srctie_regen(pid, notes)
+        print('srctie %s: %s %s' % (pid, 'ok' if ok else 'FAILED', '; '.join(notes) or 'unchanged'))
 
 
 if __name__ == '__main__':
